@@ -207,51 +207,85 @@ func runC25(c *core.Ctx) {
 			}
 			return true
 		}
+		// every place of the package that installs a DropFn counts (WhoMayWrite): the store may be built in
+		// OpenDB itself or in a constructor helper it calls
 		resolved, nSites := true, 0
-		od.InspectOwn(func(n ast.Node) bool {
-			if kv, ok := n.(*ast.KeyValueExpr); ok {
-				if id, ok := kv.Key.(*ast.Ident); ok {
-					if v, ok := od.Info().ObjectOf(id).(*types.Var); ok && p.FieldName(v) == fStore+".DropFn" {
-						nSites++
-						if !valuesOf(od, kv.Value, 2) {
+		var hosts []*core.FuncInfo
+		for _, g := range p.FuncsInPkg(fpPkg) {
+			hosts = append(hosts, g)
+			hosts = append(hosts, allLits(g)...)
+		}
+		for _, g := range hosts {
+			g := g
+			g.InspectOwn(func(n ast.Node) bool {
+				if kv, ok := n.(*ast.KeyValueExpr); ok {
+					if id, ok := kv.Key.(*ast.Ident); ok {
+						if v, ok := g.Info().ObjectOf(id).(*types.Var); ok && p.FieldName(v) == fStore+".DropFn" {
+							nSites++
+							if !valuesOf(g, kv.Value, 2) {
+								resolved = false
+							}
+						}
+					}
+				}
+				return true
+			})
+			for _, a := range assignsToField(g, fStore+".DropFn") {
+				nSites++
+				if a.RHS == nil || !valuesOf(g, a.RHS, 2) {
+					resolved = false
+				}
+			}
+		}
+		// positional composite literals of the store cannot be attributed to the field by key
+		for _, g := range hosts {
+			g := g
+			g.InspectOwn(func(n ast.Node) bool {
+				if cl, ok := n.(*ast.CompositeLit); ok && len(cl.Elts) > 0 {
+					if t := g.Info().TypeOf(cl); t != nil && t.String() == core.ModPath+"/"+fStore {
+						if _, keyed := cl.Elts[0].(*ast.KeyValueExpr); !keyed {
 							resolved = false
 						}
 					}
 				}
-			}
-			return true
-		})
-		for _, a := range assignsToField(od, fStore+".DropFn") {
-			nSites++
-			if a.RHS == nil || !valuesOf(od, a.RHS, 2) {
-				resolved = false
-			}
+				return true
+			})
 		}
-		c.Need(nSites > 0 && resolved && len(dropFns) > 0, "flaggedStore.DropFn closure installed by Producer.OpenDB")
-		var drops []*core.CallSite
-		hostOf := map[*core.CallSite]*core.FuncInfo{}
+		_ = od
+		c.Need(nSites > 0 && resolved && len(dropFns) > 0, "flaggedStore.DropFn closure installed in the flagged producer")
+		// the points of each installed function at which the database may be dropped on disk (in the
+		// closure or in a helper it calls)
+		type dropSite struct {
+			fn *core.FuncInfo
+			pt core.Point
+		}
+		var drops []dropSite
+		isDrop := func(cs *core.CallSite) bool { return cs.Name == "kvdb.Droper.Drop" && !cs.InGo }
 		for _, fn := range dropFns {
-			for _, d := range fn.CallsTo("kvdb.Droper.Drop") {
-				drops = append(drops, d)
-				hostOf[d] = fn
+			for _, pt := range fn.SitesMay(isDrop, 2) {
+				drops = append(drops, dropSite{fn, pt})
 			}
 		}
 		c.ExpectAtLeast("real drop sites in DropFn", len(drops), 1)
 		for _, d := range drops {
-			dropFn := hostOf[d]
+			dropFn := d.fn
 			// some invalidation of the remaining databases' clean state must precede the drop:
-			// a call of modified() / MarkFlushID(Dirty) reachable in the closure before the drop
-			inval := core.Points(dropFn.CallsMatching(func(cs *core.CallSite) bool {
+			// a call of modified() / MarkFlushID(Dirty) (or of a helper that always makes one) passed in
+			// the closure before the drop
+			inval := dropFn.SitesMust(func(cs *core.CallSite) bool {
+				if cs.InDefer {
+					return false
+				}
 				if cs.Name == fStore+".modified" {
 					return true
 				}
-				return cs.Name == "kvdb/flushable.MarkFlushID" && len(cs.Call.Args) == 4 && constNamed(dropFn, cs.Call.Args[2], "kvdb/flushable.DirtyPrefix")
-			}))
+				return cs.Name == "kvdb/flushable.MarkFlushID" && len(cs.Call.Args) == 4 && constNamed(cs.F, cs.Call.Args[2], "kvdb/flushable.DirtyPrefix")
+			}, 2)
 			ok := false
 			if len(inval) > 0 {
-				ok, _ = dropFn.MustPassBefore(inval, d.Pt)
+				ok, _ = dropFn.MustPassBefore(inval, d.pt)
 			}
-			c.Check(ok, "flaggedproducer DropFn|drop after invalidating the clean state", "T2 Dominates", d.Pos(),
+			c.Check(ok, "flaggedproducer DropFn|drop after invalidating the clean state", "T2 Dominates", posOf(d.pt),
 				"the remaining databases are marked dirty before the database is dropped",
 				"the database is closed and dropped on disk at once while the other databases keep the clean mark of the last flush: after a crash, restarting over the surviving databases reports that flush ID although a database that existed at that flush is gone")
 		}
@@ -262,10 +296,13 @@ func runC25(c *core.Ctx) {
 		errRet := func(r *ast.ReturnStmt) bool {
 			return len(r.Results) == 2 && !core.IsNil(f.Info(), r.Results[1])
 		}
+		// The tests are matched in a view (c25_view.go): the roles "mark" and "id" are bound to the mark
+		// variable and the flush ID parameter here, and to the corresponding parameters inside a named
+		// predicate helper the test may have been moved into.
 		type rule struct {
 			name    string
-			match   func(core.Fact) bool
-			alsoNot func(core.Fact) bool // further facts that imply the condition is false (may be nil)
+			match   func(c25View, core.Fact) bool
+			alsoNot func(c25View, core.Fact) bool // further facts that imply the condition is false (may be nil)
 		}
 		markVar := func() *types.Var {
 			for _, cs := range f.CallsTo(kvGet) {
@@ -282,8 +319,21 @@ func runC25(c *core.Ctx) {
 		c.Need(markVar != nil, "mark, err := db.Get(flushIDKey)")
 		flushID := f.ParamNamed("flushID")
 		c.Need(flushID != nil, "flushID parameter")
+		top := c25View{G: f, Role: func(e ast.Expr) string {
+			switch canonVar(f, varOf(f, e)) {
+			case nil:
+				return ""
+			case markVar:
+				return "mark"
+			case flushID:
+				return "id"
+			}
+			return ""
+		}}
+		lift := func(base func(c25View, core.Fact) bool) func(core.Fact) bool { return c25Lift(top, base, 2) }
 		// len(mark) == 0 (in any spelling): an empty mark does not start with the dirty prefix
-		emptyMark := func(ft core.Fact) bool {
+		emptyMark := func(v c25View, ft core.Fact) bool {
+			g := v.G
 			cm, ok := core.NormCmp(ft)
 			if !ok || cm.R == nil {
 				return false
@@ -293,30 +343,31 @@ func runC25(c *core.Ctx) {
 				if !ok || len(call.Args) != 1 {
 					return false
 				}
-				b, ok := f.ObjOf(call.Fun).(*types.Builtin)
-				return ok && b.Name() == "len" && canonVar(f, varOf(f, call.Args[0])) == markVar
+				b, ok := g.ObjOf(call.Fun).(*types.Builtin)
+				return ok && b.Name() == "len" && v.Role(call.Args[0]) == "mark"
 			}
 			switch {
-			case isLen(cm.L) && core.IsConstInt(f.Info(), cm.R, 0):
+			case isLen(cm.L) && core.IsConstInt(g.Info(), cm.R, 0):
 				return cm.Op == token.EQL || cm.Op == token.LEQ
-			case isLen(cm.L) && core.IsConstInt(f.Info(), cm.R, 1):
+			case isLen(cm.L) && core.IsConstInt(g.Info(), cm.R, 1):
 				return cm.Op == token.LSS
-			case isLen(cm.R) && core.IsConstInt(f.Info(), cm.L, 0):
+			case isLen(cm.R) && core.IsConstInt(g.Info(), cm.L, 0):
 				return cm.Op == token.EQL
 			}
 			return false
 		}
 		rules := []rule{
-			{"dirty prefix => error", func(ft core.Fact) bool {
+			{"dirty prefix => error", func(v c25View, ft core.Fact) bool {
+				g := v.G
 				// bytes.HasPrefix(mark, X) where X is (a local holding) a byte-slice literal that starts
 				// with DirtyPrefix
-				if call := isCallTo(f, ft.Expr, "bytes.HasPrefix"); call != nil && ft.Truth {
-					if len(call.Args) != 2 || canonVar(f, varOf(f, call.Args[0])) != markVar {
+				if call := isCallTo(g, ft.Expr, "bytes.HasPrefix"); call != nil && ft.Truth {
+					if len(call.Args) != 2 || v.Role(call.Args[0]) != "mark" {
 						return false
 					}
 					found := false
-					ast.Inspect(resolveLocal(f, call.Args[1]), func(n ast.Node) bool {
-						if e, ok := n.(ast.Expr); ok && constNamed(f, e, "kvdb/flushable.DirtyPrefix") {
+					ast.Inspect(resolveLocal(g, call.Args[1]), func(n ast.Node) bool {
+						if e, ok := n.(ast.Expr); ok && constNamed(g, e, "kvdb/flushable.DirtyPrefix") {
 							found = true
 						}
 						return !found
@@ -326,43 +377,45 @@ func runC25(c *core.Ctx) {
 				// or the first byte compared with the constant: mark[0] == DirtyPrefix
 				if cm, ok := core.NormCmp(ft); ok && cm.R != nil && cm.Op == token.EQL {
 					l, r := ast.Unparen(cm.L), ast.Unparen(cm.R)
-					if constNamed(f, resolveLocal(f, l), "kvdb/flushable.DirtyPrefix") {
+					if constNamed(g, resolveLocal(g, l), "kvdb/flushable.DirtyPrefix") {
 						l, r = r, l
 					}
-					if ix, ok := l.(*ast.IndexExpr); ok && constNamed(f, resolveLocal(f, r), "kvdb/flushable.DirtyPrefix") {
-						return canonVar(f, varOf(f, ix.X)) == markVar && core.IsConstInt(f.Info(), ix.Index, 0)
+					if ix, ok := l.(*ast.IndexExpr); ok && constNamed(g, resolveLocal(g, r), "kvdb/flushable.DirtyPrefix") {
+						return v.Role(ix.X) == "mark" && core.IsConstInt(g.Info(), ix.Index, 0)
 					}
 				}
 				return false
 			}, emptyMark},
-			{"differing marks => error", func(ft core.Fact) bool {
+			{"differing marks => error", func(v c25View, ft core.Fact) bool {
+				g := v.G
 				sameOperands := func(call *ast.CallExpr) bool {
 					if call == nil || len(call.Args) != 2 {
 						return false
 					}
-					a, b := canonVar(f, varOf(f, call.Args[0])), canonVar(f, varOf(f, call.Args[1]))
-					return (a == markVar && b == flushID) || (b == markVar && a == flushID)
+					a, b := v.Role(call.Args[0]), v.Role(call.Args[1])
+					return (a == "mark" && b == "id") || (b == "mark" && a == "id")
 				}
 				// !bytes.Equal(mark, flushID)
-				if call := isCallTo(f, ft.Expr, "bytes.Equal"); call != nil {
+				if call := isCallTo(g, ft.Expr, "bytes.Equal"); call != nil {
 					return !ft.Truth && sameOperands(call)
 				}
 				// bytes.Compare(mark, flushID) != 0
 				if cm, ok := core.NormCmp(ft); ok && cm.R != nil && cm.Op == token.NEQ {
 					l, r := cm.L, cm.R
-					if core.IsConstInt(f.Info(), l, 0) {
+					if core.IsConstInt(g.Info(), l, 0) {
 						l, r = r, l
 					}
-					return core.IsConstInt(f.Info(), r, 0) && sameOperands(isCallTo(f, l, "bytes.Compare"))
+					return core.IsConstInt(g.Info(), r, 0) && sameOperands(isCallTo(g, l, "bytes.Compare"))
 				}
 				return false
 			}, nil},
 		}
+		// unmarked databases (mark == nil) are skipped before these tests: they are handled by the final test
+		unmarked := lift(c25RoleNil("mark", true))
 		for _, r := range rules {
-			edges := edgesWithFact(f, r.match)
+			r := r
+			edges := edgesWithFact(f, lift(r.match))
 			c.Check(len(edges) >= 1, r.name+"|test present", "T8 DecisionTable", f.Pos(), "the test exists", "CheckDBsSynced has no such test")
-			// unmarked databases (mark == nil) are skipped before these tests: they are handled by the final test
-			unmarked := varNilFact(f, markVar, true)
 			okRow := true
 			whyRow := ""
 			for _, e := range edges {
@@ -376,9 +429,9 @@ func runC25(c *core.Ctx) {
 			if okRow {
 				// complementary side: per database, moving on to the next one (or accepting) needs the test to be false,
 				// or the database to be unmarked
-				notX := func(ft core.Fact) bool {
-					return r.match(core.Fact{Expr: ft.Expr, Truth: !ft.Truth}) || unmarked(ft) || (r.alsoNot != nil && r.alsoNot(ft))
-				}
+				notX := lift(func(v c25View, ft core.Fact) bool {
+					return r.match(v, core.Fact{Expr: ft.Expr, Truth: !ft.Truth}) || c25RoleNil("mark", true)(v, ft) || (r.alsoNot != nil && r.alsoNot(v, ft))
+				})
 				first := edges[0]
 				if loop := enclosingLoop(f, posOf(core.Point{B: first.B, I: len(first.B.Nodes) - 1})); loop != nil {
 					if head, _ := f.LoopOf(loop); head != nil && len(head.Succs) > 0 {
@@ -397,7 +450,7 @@ func runC25(c *core.Ctx) {
 		var nonInit *types.Var
 		for _, a := range assignments(f) {
 			if isIdentNamed(a.RHS, "true") {
-				if ok, _ := f.GuardedBy(a.Pt, varNilFact(f, markVar, true)); ok {
+				if ok, _ := f.GuardedBy(a.Pt, unmarked); ok {
 					nonInit = varOf(f, a.LHS)
 				}
 			}
